@@ -61,6 +61,9 @@ def build(spec) -> bytes:
         big = b"\xa2\x06" + U.varint(n) + bytes((i * 11 + 5) & 0xFF for i in range(n))     # field 100, length-delimited, unknown
         return (U.make_segment(31, [U.filler(6)]) + U.make_segment(32, [U.filler(3), U.filler(0)], extra_header=big)
                 + U.make_segment(33, [U.filler(2)] * 2500) + U.make_segment(34, [U.filler(8)]))
+    if kind == "interleaved":   # a message of a known type with a field its schema does not know BETWEEN two known fields
+        msg = bytes.fromhex("220161" "2801" "4a0162")      # TSK.DocumentArchive (type 200): fields 4, 5 (unknown), 9
+        return U.make_segment(41, [U.filler(4)]) + U.make_segment(42, [msg], types=[200]) + U.make_segment(43, [U.filler(2)])
     if kind == "ident0":     # boundary of the identifier range: identifier 0, and the optional field left out altogether
         from numbers_parser.generated.TSPArchiveMessages_pb2 import ArchiveInfo
         h = ArchiveInfo()
@@ -116,7 +119,7 @@ def synthetic_specs(quick: bool):
               ("multi", [[130, 131, 132, 133, 16387, 16388, 16389]]), ("multi", [[0] * 40, [2] * 90])]
     specs += [("unknown", 9), ("unknown", CH)]
     specs += [("merge", 0), ("merge", 1), ("merge", 2)]
-    specs += [("random", 70000, 1), ("random", 200000, 2), ("random", CH - 40, 3), ("ident0",), ("bighdr", 20000), ("bighdr", 2100000)]
+    specs += [("random", 70000, 1), ("random", 200000, 2), ("random", CH - 40, 3), ("ident0",), ("bighdr", 20000), ("bighdr", 2100000), ("interleaved",)]
     return specs
 
 
@@ -280,6 +283,9 @@ def run_oracle(m, case, cache) -> tuple[str, str] | None:
     blob = case_blob(case, cache)
     r = oracle_archive(m, blob, [(c, mo) for c, mo in opts.get("rechunks", [])])
     if r:
+        if case[0] == "syn" and list(case[1])[:1] == ["interleaved"] and r[0] in ("roundtrip-stream", "header-length", "roundtrip-objects"):
+            # protobuf's runtime re-serialises unknown fields after the known ones
+            return ("roundtrip-stream:unknown-field-between-known-fields", r[1])
         return r
     if opts.get("grow") is not None:
         return oracle_stale(m, blob, opts["grow"])
@@ -367,7 +373,9 @@ def run(ctx: Ctx) -> int:
     import time
     t1 = time.time()
     if exe:
-        correspondence(ctx, m, exe, sample, syn)
+        # the model carries message bytes as they are; the "interleaved" archive is the witness of an open finding of
+        # the implementation (bytes are canonicalised) and is judged by the oracle only
+        correspondence(ctx, m, exe, sample, [x for x in syn if x[0][0] != "interleaved"])
     common.log(f"C05: correspondence {time.time() - t1:.0f}s")
     t1 = time.time()
 
